@@ -338,3 +338,23 @@ def _getitem_list(models, it, base, idx, node):
 
 
 HOOKS["getitem"].insert(0, _getitem_list)
+
+
+def _minmax1(models, it, v, is_max, node):
+    if isinstance(v, SOpaque) and v.sort in ("AnyList", "AnyVals"):
+        return it.run.fresh("Real", "anymax")
+    return NotImplemented
+
+
+HOOKS["minmax1"].insert(0, _minmax1)
+
+
+def _method_list(models, it, target, obj, name, args, kwargs, fr, node):
+    if isinstance(target, SOpaque) and target.sort == "AnyList" and name == "index":
+        k = it.run.fresh("Int", "anyindex")
+        it.run.assume(k >= 0)
+        return k
+    return NotImplemented
+
+
+HOOKS["method"].insert(0, _method_list)
